@@ -146,3 +146,38 @@ Example C04_refinement_history :
   ops_int64 ops /\ map fst (snd (hrun ops)) = [2; 1] /\
   msearch (fst (hrun ops)) [{| f_field := [110]; f_op := OGt; f_num := Some 0; f_num2 := None; f_str := []; f_list := None |}] [] = Some [1].
 Proof. cbv zeta. split; [apply ops_int64b_sound; vm_compute; reflexivity|split; vm_compute; reflexivity]. Qed.
+
+(** THE END-TO-END REFINEMENT, closed: after ANY history the whole search — conjunction with early
+    exit, filter groups (AND / OR; an empty group selects every live document; groups take precedence
+    over plain filters), Exists / NotExists on numeric and categorical fields, final ordering —
+    returns exactly the documents the plain document store selects ([search_sat]: a Boolean
+    combination of [doc_sat], the per-document reading of one filter against the stored fields).
+    [filters_ok]: every filter of the request has int64 operands and is not in error for the
+    field's kind (an erroneous filter makes the search fail unless an early exit skips it). *)
+From Comet Require Import Proofs.MetaComposeP.
+Theorem C04_search_refines_document_store : forall ops filters groups r x,
+  ops_int64 ops ->
+  let '(s, docs) := hrun ops in
+  filters_ok s filters -> Forall (fun g => filters_ok s (g_filters g)) groups ->
+  msearch s filters groups = Some r ->
+  memz x r = search_sat s docs filters groups x.
+Proof. exact search_refines_document_store. Qed.
+Print Assumptions C04_search_refines_document_store.
+
+(** the evaluation loops alone, for EVERY index state (no history needed): the answer is the set
+    algebra of the single filters' answers *)
+Theorem C04_search_is_set_algebra : forall s x filters groups r,
+  msearch s filters groups = Some r -> memz x r = search_sel s x filters groups.
+Proof. exact msearch_is_set_algebra. Qed.
+Print Assumptions C04_search_is_set_algebra.
+
+(** the hypotheses are met by a request with a group and a NotExists over a real history *)
+Example C04_search_refinement_example :
+  let ops := [HAdd 1 [([110], MInt 5); ([99], MStr [97])]; HAdd 2 [([110], MInt (-5))]; HRemove 1; HAdd 1 [([110], MInt 7)]] in
+  let fgt := {| f_field := [110]; f_op := OGt; f_num := Some 0; f_num2 := None; f_str := []; f_list := None |} in
+  let fne := {| f_field := [99]; f_op := ONotExists; f_num := None; f_num2 := None; f_str := []; f_list := None |} in
+  let g := {| g_and := false; g_filters := [fgt; fne] |} in
+  let '(s, docs) := hrun ops in
+  msearch s [] [g] = Some [1; 2] /\ search_sat s docs [] [g] 1 = true /\ search_sat s docs [] [g] 3 = false /\
+  eval_filter s fgt <> None /\ eval_filter s fne <> None.
+Proof. vm_compute. repeat split; discriminate. Qed.
